@@ -57,6 +57,8 @@ def cases(tier, seed):
             yield {"kind": "svgp", "strategy": "CiqVariationalStrategy", "dist": dist, "zbatch": [], "pbatch": [], "dbatch": [], "mn": [26, 5], "wellcond": True, "seed": rnd.randrange(10**6)}
         for dist in DISTS[:3]:
             yield {"kind": "svgp", "strategy": "CiqVariationalStrategy", "dist": "NaturalVariationalDistribution" if dist == DISTS[0] else dist, "zbatch": [], "pbatch": [], "dbatch": [], "seed": rnd.randrange(10**6)}
+        for dist, bb, M in itertools.product(DISTS, [[], [2]], [1, 4]):
+            yield {"kind": "init_from_prior", "dist": dist, "batch": bb, "M": M, "seed": rnd.randrange(10**6)}
         for dist, dim in itertools.product(DISTS[:2], [-1]):
             yield {"kind": "bdvs", "dist": dist, "mean_var_batch_dim": dim, "seed": rnd.randrange(10**6)}
         for dist in ("CholeskyVariationalDistribution", "MeanFieldVariationalDistribution"):
@@ -248,7 +250,7 @@ def run_case(case, ctx):
 
 
 def _dispatch(case, ctx, g):
-    return {"svgp": _svgp, "bdvs": _bdvs, "grid": _grid, "lmc": _multitask, "indep": _multitask, "identity": _identity, "same_qu": _same_qu, "orth": _orth}[case["kind"]](case, ctx, g)
+    return {"svgp": _svgp, "init_from_prior": _init_from_prior, "bdvs": _bdvs, "grid": _grid, "lmc": _multitask, "indep": _multitask, "identity": _identity, "same_qu": _same_qu, "orth": _orth}[case["kind"]](case, ctx, g)
 
 
 def _qu_unwhitened(case_strat, dist, vs, Kzz, mz, jit):
@@ -409,6 +411,45 @@ def _svgp(case, ctx, g):
         ctx.close("qf_train_variance", o3.variance, dj3.expand(o3.variance.shape), tol, cls=cls + ":train_var:no_grad_after_update", alt=d03.expand(o3.variance.shape), strategy=strat, dist=dist)
         m.eval()
     ctx.cell({k: v for k, v in case.items() if k != "seed"}, nontrivial=nontriv)
+
+
+def _init_from_prior(case, ctx, g):
+    """initialize_variational_distribution(p): afterwards the distribution IS p in everything its family can represent -
+    mean (plus mean_init_std noise, here 0 and a positive value with the generator replayed), full covariance (Cholesky,
+    natural, tril-natural), the variances (mean-field), nothing (delta)"""
+    import torch
+
+    import gpytorch
+    from gpytorch.distributions import MultivariateNormal as MVN
+    from vf import util
+
+    V = gpytorch.variational
+    name, b, M = case["dist"], case["batch"], case["M"]
+    A = util.randn(g, *b, M, M) * 0.5
+    C = A @ A.transpose(-1, -2) + 0.3 * torch.eye(M)
+    mean = util.randn(g, *b, M)
+    for std in (0.0, 0.2):
+        vd = getattr(V, name)(M, batch_shape=torch.Size(b), mean_init_std=std)
+        torch.manual_seed(case["seed"])
+        vd.initialize_variational_distribution(MVN(mean, C))
+        torch.manual_seed(case["seed"])
+        noise = torch.randn_like(mean) * std
+        with torch.no_grad():
+            q = vd()
+        cls = f"init_from_prior:{name[:8]}:std{std}"
+        if name in ("NaturalVariationalDistribution", "TrilNaturalVariationalDistribution") and std > 0:
+            # (the natural parameterisations add the noise to the mean in expectation coordinates: mean itself is what is specified)
+            ctx.expect("qu_initialised_from_prior", bool(torch.isfinite(q.mean).all()), "non-finite mean after initialisation")
+        else:
+            ctx.close("qu_initialised_from_prior", q.mean, mean + noise, (1e-9, 1e-9), cls=cls + ":mean")
+        if name == "DeltaVariationalDistribution":
+            continue
+        cov = q.covariance_matrix
+        if name == "MeanFieldVariationalDistribution":
+            ctx.close("qu_initialised_from_prior", torch.diagonal(cov, dim1=-2, dim2=-1), torch.diagonal(C, dim1=-2, dim2=-1), (1e-9, 1e-9), cls=cls + ":variances")
+        else:
+            ctx.close("qu_initialised_from_prior", cov, C, (1e-8, 1e-8), cls=cls + ":cov")
+    ctx.cell({k: v for k, v in case.items() if k != "seed"})
 
 
 def _bdvs(case, ctx, g):
